@@ -86,7 +86,7 @@ def inverse_exact(lat1, lon1, lat2, lon2):
 
 
 LENGTHS = [1.0, 100.0, 1e4, 1e5]
-E1S = [1e5, 3e5, 499999.0, 5e5, 7e5, 9e5]
+E1S = [1e5, 3e5, 460000.0, 499999.0, 5e5, 545000.0, 7e5, 9e5]      # 460000 / 545000: 100 km lines cross the CM with both ends far from it
 
 
 def gen(tier, seed):
